@@ -58,9 +58,15 @@ def run(tier, seed):
               'trials inside them as they arrive from the wire (doubles / strings), plus trials carrying unknown or inactive parameters; '
               'StudyConfig.trial_parameters compared with the model and with an oracle written from the property text; '
               'non-trivial = conditional space, indexed parameter or invalid trial')
-  rep.trusted = ['Coq 8.16.1 kernel + vm_compute', 'exact rationals instead of IEEE doubles', 'harness/props/c17.py oracle', 'proto shim']
+  rep.trusted = ['Coq 8.16.1 kernel + vm_compute', 'harness/translate/extbfs.py (Python-ast translator of the loop of _trial_to_external_values, fail-closed)', 'exact rationals instead of IEEE doubles', 'harness/props/c17.py oracle', 'proto shim']
+  tbroke = None
+  try:
+    from harness.translate import extbfs
+    C.write_gen('Gen/ExternalSrc.v', extbfs.translate(C.REPO))
+  except Exception as e:  # pylint: disable=broad-except
+    tbroke = 'translator harness/translate/extbfs.py refused study_config.py: %r' % (e,)
   C.standard_proof_step(rep, 'C17')
-  broke = rep.proof_broken
+  broke = ((tbroke or '') + ' ' + (rep.proof_broken or '')).strip() or None
   concrete = False
   known = {f['id']: f for f in C.load_known() if f['property'] == 'C17'}
   r = C.rng(seed, 'c17')
@@ -176,9 +182,23 @@ def run(tier, seed):
     else:
       mode = 'ok'
     proto = study_pb2.Trial(id='1')
+    # a client that is not the Python client may store a boolean as the protobuf bool_value (for parameters without children here;
+    # an unknown parameter may carry one too and must still be reported)
+    parents_ = set()
+
+    def find_parents_(pcs_):
+      for pc_ in pcs_:
+        if pc_.child_parameter_configs:
+          parents_.add(pc_.name)
+          find_parents_(pc_.child_parameter_configs)
+    find_parents_(space.parameters)
+    as_bool_value = r.random() < 0.4
     for k_, v in params.items():
       p = proto.parameters.add(parameter_id=k_)
-      if isinstance(v, str):
+      if as_bool_value and ((k_ in declared and declared[k_][0] == 'bool' and k_ not in parents_) or k_ == 'zzz'):
+        p.value.bool_value = (v == 'True') if isinstance(v, str) else bool(v)
+        rep.count('parameter_stored_as_bool_value')
+      elif isinstance(v, str):
         p.value.string_value = v
       else:
         p.value.number_value = float(v)
